@@ -400,6 +400,9 @@ def run(ctx):
     tie_cast_pass(ctx)
     tie_orphan_pass(ctx, 200 if ctx.tier == "quick" else 1500)
     tie_idreshape_pass(ctx, 200 if ctx.tier == "quick" else 1500)
+    import c02_passes
+    c02_passes.tie_reshape_pair_pass(ctx, 150 if ctx.tier == "quick" else 1500)
+    c02_passes.tie_transpose_pair_pass(ctx, 200 if ctx.tier == "quick" else 2000)
     items, res = enumerate_graphs(ctx)
     import collections
     st = collections.Counter(r["status"] for r in res)
